@@ -68,6 +68,11 @@ def step (t : List String) : Option String :=
         match retApp rt ret with
         | none => pure "abort calls=1"
         | some r => pure s!"ok calls=1 guest=[{String.intercalate "," gs}] ret={r}"
+  | ["invr", abi, ty, v] => do
+      -- result of an invocation on a given ABI: the guest's value converted to the application's type, or abort
+      let abi ← Conv.abiOfName abi; let b ← Conv.baseTyOfName ty; let v ← parseInt? v
+      if ¬ (b.guest abi).inRange v then pure "badinput" else
+      pure (showOpt (toApplication abi b v))
   | ["inamed", sb, name, v] => do
       let sb ← sb.toNat?; let v ← parseInt? v
       let l := libOfSb sb
